@@ -126,6 +126,42 @@ type blkScan struct {
 	selectDoneAnd map[string]bool   // channels c such that the function has `select { case <-ctx.Done(): ...; case <-c: }`
 	joinChan      map[string]bool   // channels received in a recognised `defer func(){ cancel(); <-c }()`
 	deferClose    map[string]bool   // identifiers X with a top-level `defer X.Close()`
+	// loopCtx[i]: does the i-th enclosing for statement of the statement being visited look at the context itself
+	// (a <ctx>.Err() / <ctx>.Done() in its condition, post statement or body, nested loops and literals not counted)
+	loopCtx []bool
+}
+
+// loopLooksAtCtx: the loop's own statements (not those of nested loops or function literals) contain <ctx>.Err() or
+// <ctx>.Done().  A loop that does not can only end through its own condition: when all it does is take what a
+// channel holds without blocking, it spins for as long as the producer keeps the channel non-empty.
+func (s *blkScan) loopLooksAtCtx(parts ...ast.Node) bool {
+	found := false
+	for _, p := range parts {
+		if p == nil {
+			continue
+		}
+		root := p
+		ast.Inspect(p, func(m ast.Node) bool {
+			if found || m == nil {
+				return false
+			}
+			switch v := m.(type) {
+			case *ast.ForStmt, *ast.RangeStmt:
+				if m != root {
+					return false
+				}
+			case *ast.FuncLit:
+				return false
+			case *ast.CallExpr:
+				if sel, ok := v.Fun.(*ast.SelectorExpr); ok && (sel.Sel.Name == "Err" || sel.Sel.Name == "Done") && len(v.Args) == 0 && s.isCtxExpr(sel.X) {
+					found = true
+					return false
+				}
+			}
+			return true
+		})
+	}
+	return found
 }
 
 func blkBaseName(e ast.Expr) string {
@@ -358,7 +394,9 @@ func (s *blkScan) walk(n ast.Node, thread string, inLoop bool, pkgFuncs func(str
 			if v.Post != nil {
 				inspect(v.Post, true)
 			}
+			s.loopCtx = append(s.loopCtx, s.loopLooksAtCtx(v.Cond, v.Post, v.Body))
 			inspect(v.Body, true)
+			s.loopCtx = s.loopCtx[:len(s.loopCtx)-1]
 			return false
 		case *ast.RangeStmt:
 			if s.chanName[blkBaseName(v.X)] {
@@ -367,7 +405,9 @@ func (s *blkScan) walk(n ast.Node, thread string, inLoop bool, pkgFuncs func(str
 			} else {
 				inspect(v.X, inLoop)
 			}
+			s.loopCtx = append(s.loopCtx, s.loopLooksAtCtx(v.Body))
 			inspect(v.Body, true)
+			s.loopCtx = s.loopCtx[:len(s.loopCtx)-1]
 			return false
 		case *ast.SelectStmt:
 			var arms []string
@@ -415,8 +455,13 @@ func (s *blkScan) walk(n ast.Node, thread string, inLoop bool, pkgFuncs func(str
 			if bad != "" {
 				kind = fmt.Sprintf("UNSUPPORTED_select_case_line_%d", s.bf.line(v))
 			}
-			s.add(blkRow{thread: thread, kind: kind, obj: "select", arms: arms, guarded: hasDone || hasDefault, line: s.bf.line(v),
-				why: "guarded iff the select has a <-ctx.Done() arm (or a default arm)"})
+			guarded, why := hasDone || hasDefault, "guarded iff the select has a <-ctx.Done() arm (or a default arm)"
+			if hasDefault && !hasDone && len(arms) > 1 && len(s.loopCtx) > 0 && !s.loopCtx[len(s.loopCtx)-1] {
+				// a non-blocking receive / send repeated by a loop that never looks at the context: the loop ends only
+				// when the channel is momentarily empty (full), which a busy producer (consumer) can prevent for ever
+				guarded, why = false, "non-blocking select inside a loop that does not check the context: spins for as long as the channel stays non-empty"
+			}
+			s.add(blkRow{thread: thread, kind: kind, obj: "select", arms: arms, guarded: guarded, line: s.bf.line(v), why: why})
 			return false
 		case *ast.SendStmt:
 			name := blkBaseName(v.Chan)
@@ -544,6 +589,38 @@ func (s *blkScan) goStmt(g *ast.GoStmt, parentThread string, pkgFuncs func(strin
 		_, local := s.chans[blkBaseName(sd.Chan)]
 		return !local
 	}
+	// deliversVia: the function (or a same-package function it calls, transitively) hands something downstream
+	var deliversVia func(bf2 *blkFile, fd *ast.FuncDecl, seen map[string]bool) bool
+	deliversVia = func(bf2 *blkFile, fd *ast.FuncDecl, seen map[string]bool) bool {
+		if fd == nil || fd.Body == nil || seen[fd.Name.Name] {
+			return false
+		}
+		seen[fd.Name.Name] = true
+		sub := newBlkScan(bf2, s.worker, blkFuncLabel(fd), s.rows, s.helpers)
+		sub.prepare(fd.Type, fd.Body)
+		if contains(fd.Body, isCallTo("PushMessage")) || contains(fd.Body, func(m ast.Node) bool {
+			sd, ok := m.(*ast.SendStmt)
+			if !ok {
+				return false
+			}
+			_, local := sub.chans[blkBaseName(sd.Chan)]
+			return !local
+		}) {
+			return true
+		}
+		res := false
+		ast.Inspect(fd.Body, func(m ast.Node) bool {
+			if c, ok := m.(*ast.CallExpr); ok && pkgFuncs != nil && !res {
+				if id, ok := c.Fun.(*ast.Ident); ok {
+					if bf3, fd3 := pkgFuncs(id.Name); fd3 != nil && deliversVia(bf3, fd3, seen) {
+						res = true
+					}
+				}
+			}
+			return !res
+		})
+		return res
+	}
 	switch f := g.Call.Fun.(type) {
 	case *ast.FuncLit:
 		// (1) open idiom: go func(){ x, err = os.OpenFile(...); close(ready) }()  +  select { <-ctx.Done(), <-ready }
@@ -607,7 +684,7 @@ func (s *blkScan) goStmt(g *ast.GoStmt, parentThread string, pkgFuncs func(strin
 				}
 				_, local := sub.chans[blkBaseName(sd.Chan)]
 				return !local
-			})
+			}) || deliversVia(calleeFile, callee, map[string]bool{})
 		}
 		// join idiom: the literal starts with `defer close(c)` and the parent has `defer func(){ cancel(); <-c }()`
 		// registered at the top level of its body BEFORE this go statement; the helper runs under the derived context.
@@ -636,7 +713,7 @@ func (s *blkScan) goStmt(g *ast.GoStmt, parentThread string, pkgFuncs func(strin
 		delivers := contains(fd.Body, isCallTo("PushMessage")) || contains(fd.Body, func(m ast.Node) bool {
 			_, ok := m.(*ast.SendStmt)
 			return ok
-		})
+		}) || deliversVia(bf2, fd, map[string]bool{})
 		why := "delivers nothing downstream"
 		if contains(fd.Body, isCallTo("Maintain")) {
 			// Reassembler.Maintain flushes timed-out events through the callback, but refuses to once the
